@@ -18,12 +18,12 @@ CLAIMED = {
     "C09": dict(
         technique="deterministic simulation with the RNG behind a seam: zero / one-hot / impulse / constant draw streams identify every noise term exactly; same-seed twin runs; gv pre-histories",
         text="PD is executed in bundles of twin runs whose Gaussian draws are served by the simulator; the effective scale of each unit-variance draw is read off exactly, so the documented variances, the selection table and the determinism of the signal part are checked for every draw, not statistically. Falls back to seeded six-sigma sweeps if the seam is bypassed.",
-        note="library LPF trusted as the output filter (C11's subject); physical constants from scipy.constants",
+        note="library LPF trusted as the output filter (C11's subject) but evaluated in a pristine process after every grid change; physical constants from scipy.constants; statistical six-sigma fallback only if a draw escapes the RNG seam",
         ref="DESIGN.md 3/C09"),
     "C10": dict(
         technique="deterministic simulation with the RNG behind a seam: same-seed noise-stripped twins and one-hot draw streams give the exact 4xK ASE mixing matrix; gv pre-histories",
         text="EDFA is executed in bundles of twins; gain on signal and on incoming noise, polarisation bookkeeping and the ASE covariance (power, independence, circularity) are identified exactly from scripted draws; BW clause by comparison with BPF of the unfiltered twin.",
-        note="library BPF trusted for the BW clause; scipy.constants",
+        note="library BPF trusted for the BW clause (evaluated in a pristine process after grid changes); scipy.constants; gv.f0 is configured through wavelength only",
         ref="DESIGN.md 3/C10"),
     "C12": dict(
         technique="deterministic simulation of a PPM link over a slot channel with injected flips/erasures/bursts; HDD's random choices served and enumerated by the simulator; exhaustive fault-free baseline",
@@ -33,7 +33,7 @@ CLAIMED = {
     "C14": dict(
         technique="deterministic simulation: interleaved multi-user bench sessions on the shared gv singleton and shared write-guarded inputs, with clock / RNG / scribble / failed-call / gv-reconfiguration faults, compared call by call with an isolated golden execution; grid reference model",
         text="The global grid is checked against the statement after every gv()/clean() of seeded histories; every device/codec/DSP call of an interleaved session must leave gv and its arguments untouched, alias nothing, repeat bit-for-bit under the same seed and equal the result of the same call executed alone in a fresh fork.",
-        note="golden = the same library executed in isolation (this is the point of the check); bit-exact comparison within one process image",
+        note="golden = the same library call executed alone in a fork of a pristine process that replayed only the gv ops, inputs shipped by value (this is the point of the check); bit-exact comparison within one machine image; FIBER step count bounded by the harness",
         ref="DESIGN.md 3/C14"),
     "C15": dict(
         technique="deterministic simulation: seeded value-pool histories vs list-of-bits reference model with caller-scribble and write-protect faults; exhaustive baseline <= 12 bits",
@@ -43,7 +43,7 @@ CLAIMED = {
     "C17": dict(
         technique="deterministic simulation over the clustering nondeterminism: seed sweep of the KMeans initialisation with same-seed twin executions on rescaled waveforms",
         text="GET_EYE draws its clustering initialisations from numpy's global RNG; each waveform is estimated under several controlled seeds, and each seed is replayed on the affinely rescaled waveform, so the accuracy bands hold for every seed explored and equivariance compares executions that saw identical draws.",
-        note="bands quoted verbatim from the statement; sampling over seeds and waveforms",
+        note="bands quoted verbatim from the statement (lower sigma bound against the noise realised on the estimator's own window); generated patterns keep >= n/8 transitions and >= n/10 slots of each level at each slot parity; sampling over seeds and waveforms",
         ref="DESIGN.md 3/C17"),
     "C20": dict(
         technique="deterministic simulation: real PPG3204 driver against an in-process SCPI reference instrument on a simulated VISA transport with timeouts, rejected commands, resets and slow replies; delayed noisy channel for SYNC",
